@@ -15,6 +15,12 @@ mod verif_kani {
     static mut CLOSE_CALLS: usize = 0;
     static mut FLAGS_SEEN: c_int = 0;
 
+    // the first descriptor the kernel hands out may be ANY small number, 0 included (a daemon with stdin closed)
+    fn ledger_init() {
+        let first: usize = kani::any();
+        kani::assume(first < 4);
+        unsafe { NEXT = first };
+    }
     unsafe fn alloc_fd() -> c_int {
         let fd = NEXT;
         assert!(fd < NFD);
@@ -82,6 +88,7 @@ mod verif_kani {
     #[kani::stub(std::thread::panicking, k_panicking)]
     #[kani::unwind(4)]
     fn ledger_connect() {
+        ledger_init();
         let before = open_count();
         let r = OsIpcSender::connect(String::from("s"));
         kani::cover!(r.is_ok(), "cover.connect_ok");
@@ -106,6 +113,7 @@ mod verif_kani {
     #[kani::stub(UnixError::last, k_last)]
     #[kani::stub(std::thread::panicking, k_panicking)]
     fn ledger_channel() {
+        ledger_init();
         match channel() {
             Ok((tx, rx)) => {
                 assert!(open_count() == 2, "kani.ledger.channel_ok_owns_two");
@@ -126,6 +134,7 @@ mod verif_kani {
     #[kani::stub(libc::close, k_close)]
     #[kani::stub(std::thread::panicking, k_panicking)]
     fn ledger_receiver_consume() {
+        ledger_init();
         let fd = unsafe { alloc_fd() };
         let rx = OsIpcReceiver::from_fd(fd);
         let moved = rx.consume();
@@ -142,6 +151,7 @@ mod verif_kani {
     #[kani::stub(libc::close, k_close)]
     #[kani::stub(std::thread::panicking, k_panicking)]
     fn ledger_sender_clones() {
+        ledger_init();
         let fd = unsafe { alloc_fd() };
         let s = OsIpcSender::from_fd(fd);
         let c1 = s.clone();
@@ -159,6 +169,7 @@ mod verif_kani {
     #[kani::stub(libc::close, k_close)]
     #[kani::stub(std::thread::panicking, k_panicking)]
     fn ledger_opaque_channel() {
+        ledger_init();
         let fd = unsafe { alloc_fd() };
         let mut o = OsOpaqueIpcChannel::from_fd(fd);
         let which: u8 = kani::any();
@@ -191,6 +202,7 @@ mod verif_kani {
     #[kani::stub(libc::munmap, k_munmap)]
     #[kani::stub(std::thread::panicking, k_panicking)]
     fn ledger_shared_memory_drop() {
+        ledger_init();
         let fd = unsafe { alloc_fd() };
         let len: usize = kani::any();
         let mapped: bool = kani::any();
@@ -231,6 +243,7 @@ mod verif_kani {
     #[kani::stub(libc::dup, k_dup_plain)]
     #[kani::stub(std::thread::panicking, k_panicking)]
     fn ledger_shared_memory_clone() {
+        ledger_init();
         let fd = unsafe { alloc_fd() };
         let len: usize = kani::any();
         let mut backing = [0u8; 1];
@@ -436,6 +449,175 @@ mod verif_kani {
             },
             Err(e) => mem::forget(e),
         }
+    }
+
+    // send_first_fragment / send_followup_fragment are nested fns of OsIpcSender::send: their text is copied verbatim
+    // from the working tree on every run (mechanical extraction) and harnessed with sendmsg/send stubbed.
+    //@@EXTRACT src/platform/unix/mod.rs :: impl OsIpcSender :: send :: send_first_fragment
+    //@@EXTRACT src/platform/unix/mod.rs :: impl OsIpcSender :: send :: send_followup_fragment
+
+    static mut SM_CALLS: usize = 0;
+    static mut SM_FD: c_int = 0;
+    static mut SM_FLAGS: c_int = -1;
+    static mut SM_IOVLEN: usize = 0;
+    static mut SM_HDR_LEN: usize = 0;
+    static mut SM_HDR_VALUE: usize = 0;
+    static mut SM_DATA_PTR: usize = 0;
+    static mut SM_DATA_LEN: usize = 0;
+    static mut SM_CONTROL_NULL: bool = false;
+    static mut SM_CONTROLLEN: usize = 0;
+    static mut SM_CMSG_LEN: usize = 0;
+    static mut SM_CMSG_LEVEL: c_int = 0;
+    static mut SM_CMSG_TYPE: c_int = 0;
+    static mut SM_FD_PROBE_INDEX: usize = 0;
+    static mut SM_FD_PROBE_VALUE: c_int = 0;
+    static mut SM_RET: isize = 0;
+    unsafe fn k_sendmsg(fd: c_int, msg: *const msghdr, flags: c_int) -> isize {
+        SM_CALLS += 1;
+        SM_FD = fd;
+        SM_FLAGS = flags;
+        SM_IOVLEN = (*msg).msg_iovlen as usize;
+        let iov = (*msg).msg_iov;
+        SM_HDR_LEN = (*iov).iov_len;
+        SM_HDR_VALUE = *((*iov).iov_base as *const usize);
+        SM_DATA_PTR = (*iov.add(1)).iov_base as usize;
+        SM_DATA_LEN = (*iov.add(1)).iov_len;
+        SM_CONTROL_NULL = (*msg).msg_control.is_null();
+        SM_CONTROLLEN = (*msg).msg_controllen as usize;
+        if !SM_CONTROL_NULL {
+            let c = (*msg).msg_control as *const cmsghdr;
+            SM_CMSG_LEN = (*c).cmsg_len as usize;
+            SM_CMSG_LEVEL = (*c).cmsg_level;
+            SM_CMSG_TYPE = (*c).cmsg_type;
+            // read ONE descriptor slot chosen by the harness: CBMC checks that the read is inside the allocation
+            let fds = CMSG_DATA(c as *mut cmsghdr) as *const c_int;
+            SM_FD_PROBE_VALUE = *fds.add(SM_FD_PROBE_INDEX);
+        }
+        SM_RET = kani::any();
+        SM_RET
+    }
+    #[kani::proof]
+    #[kani::stub(sendmsg, k_sendmsg)]
+    #[kani::stub(UnixError::last, k_last)]
+    fn ffi_send_first_fragment() {
+        let all_fds: [c_int; 65] = kani::any();
+        let n: usize = kani::any();
+        kani::assume(n <= 65);
+        let fds = &all_fds[..n];
+        let all_data: [u8; 8] = kani::any();
+        let dlen: usize = kani::any();
+        kani::assume(dlen <= 8);
+        let data = &all_data[..dlen];
+        let total: usize = kani::any();
+        let probe: usize = kani::any();
+        kani::assume(n == 0 || probe < n);
+        unsafe { SM_FD_PROBE_INDEX = probe };
+        let r = send_first_fragment(7, fds, data, total);
+        unsafe {
+            assert!(SM_CALLS == 1 && SM_FD == 7, "kani.ffi.first_fragment_one_sendmsg_on_the_given_socket");
+            assert!(SM_IOVLEN == 2 && SM_HDR_LEN == mem::size_of::<usize>() && SM_HDR_VALUE == total, "kani.ffi.first_fragment_header_is_total_length");
+            assert!(SM_DATA_PTR == data.as_ptr() as usize && SM_DATA_LEN == dlen, "kani.ffi.first_fragment_payload_is_the_data_buffer");
+            if n == 0 {
+                assert!(SM_CONTROL_NULL && SM_CONTROLLEN == 0, "kani.ffi.no_descriptors_no_control_message");
+            } else {
+                assert!(!SM_CONTROL_NULL && SM_CONTROLLEN == CMSG_SPACE(n * mem::size_of::<c_int>()), "kani.ffi.control_message_sized_for_the_descriptors");
+                assert!(SM_CMSG_LEN == CMSG_LEN(n * mem::size_of::<c_int>()) && SM_CMSG_LEVEL == libc::SOL_SOCKET && SM_CMSG_TYPE == SCM_RIGHTS,
+                        "kani.ffi.control_message_is_scm_rights_for_n_descriptors");
+                assert!(SM_FD_PROBE_VALUE == all_fds[probe], "kani.ffi.descriptors_copied_in_order");
+            }
+            assert!(r.is_ok() == (SM_RET > 0), "kani.ffi.first_fragment_ok_iff_sendmsg_positive");
+        }
+        kani::cover!(n == 65, "cover.first_fragment_65_descriptors");
+        kani::cover!(n == 0 && dlen == 0, "cover.first_fragment_empty");
+        mem::forget(r);
+    }
+
+    static mut SD_CALLS: usize = 0;
+    static mut SD_FD: c_int = 0;
+    static mut SD_PTR: usize = 0;
+    static mut SD_LEN: usize = 0;
+    static mut SD_FLAGS: c_int = -1;
+    static mut SD_RET: isize = 0;
+    unsafe fn k_send(fd: c_int, buf: *const c_void, len: size_t, flags: c_int) -> isize {
+        SD_CALLS += 1;
+        SD_FD = fd;
+        SD_PTR = buf as usize;
+        SD_LEN = len;
+        SD_FLAGS = flags;
+        SD_RET = kani::any();
+        SD_RET
+    }
+    #[kani::proof]
+    #[kani::stub(libc::send, k_send)]
+    #[kani::stub(UnixError::last, k_last)]
+    fn ffi_send_followup_fragment() {
+        let all_data: [u8; 8] = kani::any();
+        let dlen: usize = kani::any();
+        kani::assume(dlen <= 8);
+        let data = &all_data[..dlen];
+        let r = send_followup_fragment(9, data);
+        unsafe {
+            assert!(SD_CALLS == 1 && SD_FD == 9 && SD_PTR == data.as_ptr() as usize && SD_LEN == dlen, "kani.ffi.followup_one_send_of_exactly_the_buffer");
+            assert!(SD_FLAGS == 0, "kani.ffi.followup_send_is_blocking");
+            assert!(r.is_ok() == (SD_RET > 0), "kani.ffi.followup_ok_iff_send_positive");
+        }
+        mem::forget(r);
+    }
+
+    // BackingStore::map_file: length from the caller or from fstat; zero length -> (null, 0) WITHOUT calling mmap;
+    // otherwise one shared read-write mapping of exactly that length of this descriptor at offset 0
+    static mut MF_CALLS: usize = 0;
+    static mut MF_LEN: usize = 0;
+    static mut MF_PROT: c_int = 0;
+    static mut MF_FLAGS: c_int = 0;
+    static mut MF_FD: c_int = 0;
+    static mut MF_OFF: off_t = -1;
+    static mut MF_SIZE: off_t = 0;
+    unsafe fn k_mmap_rec(_addr: *mut c_void, len: size_t, prot: c_int, flags: c_int, fd: c_int, off: off_t) -> *mut c_void {
+        assert!(len > 0, "kani.ffi.mmap_never_asked_for_zero_bytes");
+        MF_CALLS += 1;
+        MF_LEN = len;
+        MF_PROT = prot;
+        MF_FLAGS = flags;
+        MF_FD = fd;
+        MF_OFF = off;
+        ptr::addr_of_mut!(MAP_BUF) as *mut c_void
+    }
+    unsafe fn k_fstat_size(_fd: c_int, st: *mut libc::stat) -> c_int {
+        (*st).st_size = MF_SIZE;
+        0
+    }
+    #[kani::proof]
+    #[kani::stub(libc::mmap, k_mmap_rec)]
+    #[kani::stub(libc::fstat, k_fstat_size)]
+    #[kani::stub(libc::close, k_close)]
+    #[kani::stub(std::thread::panicking, k_panicking)]
+    fn ffi_map_file() {
+        ledger_init();
+        let fd = unsafe { alloc_fd() };
+        let store = BackingStore::from_fd(fd);
+        let given: Option<usize> = kani::any();
+        let size: off_t = kani::any();
+        kani::assume(size >= 0);
+        unsafe { MF_SIZE = size };
+        let (p, len) = unsafe { store.map_file(given) };
+        let expect = match given {
+            Some(l) => l,
+            None => size as usize,
+        };
+        assert!(len == expect, "kani.ffi.map_file_length_is_given_or_file_size");
+        if expect == 0 {
+            assert!(p.is_null() && unsafe { MF_CALLS } == 0, "kani.ffi.empty_region_is_not_mapped");
+        } else {
+            unsafe {
+                assert!(!p.is_null() && MF_CALLS == 1 && MF_LEN == expect, "kani.ffi.one_mapping_of_exactly_the_length");
+                assert!(MF_FLAGS & MAP_SHARED != 0 && MF_PROT == (PROT_READ | PROT_WRITE), "kani.ffi.mapping_shared_read_write");
+                assert!(MF_FD == fd && MF_OFF == 0, "kani.ffi.mapping_of_this_descriptor_from_offset_zero");
+            }
+        }
+        kani::cover!(given.is_none() && size == 0, "cover.received_empty_region");
+        kani::cover!(given.is_none() && size > 0, "cover.received_region");
+        mem::forget(store);
     }
 
     // is_socket: fstat failure means "not a socket"; otherwise exactly S_IFSOCK
